@@ -35,6 +35,7 @@ def handleRcb (dim iter tol plen : Nat) (ws : List Int) (np : Nat) (xs : List Na
 def handle (toks : List String) : String :=
   match toks with
   | "rcb" :: d :: iter :: tol :: _threads :: plen :: nw :: rest =>
+    if largeN plen || largeN nw then skipLarge else
     match (do
       let d ← parseNat? d
       let iter ← parseNat? iter
@@ -85,6 +86,7 @@ def handle (toks : List String) : String :=
       | .oob => "panic index out of bounds"
       | .fuel => "abort fuel"
   | "split" :: d :: coord :: tol :: mn :: mx :: n :: rest =>
+    if largeN n then skipLarge else
     match (do
       let d ← parseNat? d
       let coord ← parseNat? coord
